@@ -72,14 +72,15 @@ type Reload struct {
 }
 
 type Case struct {
-	Sites   []Site   `json:"sites"`
-	Extra0  bool     `json:"extra0"`
-	Size0   int      `json:"size0_kb"`
-	Clients []Client `json:"clients"`
-	Reloads []Reload `json:"reloads"`
-	TailMs  int      `json:"tail_ms"`
-	GraceMs int      `json:"grace_ms"`      // graceful drain timeout (-grace); 0 = the default 5 s
-	TLS     bool     `json:"tls,omitempty"` // every site is https:// with 'tls self_signed'; clients handshake on every fresh connection
+	Sites    []Site   `json:"sites"`
+	Extra0   bool     `json:"extra0"`
+	Size0    int      `json:"size0_kb"`
+	Clients  []Client `json:"clients"`
+	Reloads  []Reload `json:"reloads"`
+	TailMs   int      `json:"tail_ms"`
+	GraceMs  int      `json:"grace_ms"`           // graceful drain timeout (-grace); 0 = the default 5 s
+	Imported bool     `json:"imported,omitempty"` // the Casketfile is one constant 'import sites.conf' line; reloads only change the imported file
+	TLS      bool     `json:"tls,omitempty"`      // every site is https:// with 'tls self_signed'; clients handshake on every fresh connection
 }
 
 var ports = []int{17001, 17002, 17003}
@@ -259,7 +260,7 @@ func runCase(c *Case) (nontrivial bool, classes []string, err error) {
 	defer func() { httpserver.GracefulTimeout = 5 * time.Second }()
 	conf := filepath.Join(dir, "Casketfile")
 	confPath.Store(conf)
-	os.WriteFile(conf, []byte(text(c, dir, 0, "valid", c.Extra0, c.Size0)), 0o644)
+	place(c, dir, conf, text(c, dir, 0, "valid", c.Extra0, c.Size0), true)
 	input, lerr2 := casket.LoadCasketfile("http") // as the binary does; remembers the loader for SIGUSR1
 	if lerr2 != nil {
 		return false, nil, fmt.Errorf("HARNESS: loading the Casketfile: %v", lerr2)
@@ -344,10 +345,10 @@ func runCase(c *Case) (nontrivial bool, classes []string, err error) {
 			tmid := text(c, dir, mid, "valid", r.Extra, r.SizeKB)
 			off := len(srv.LogBuf.String())
 			midRec := reloadRec{gen: mid, kind: "valid", extra: r.Extra, prevValidGen: curGen, via: r.Via, ok: true, call: time.Now()}
-			writeAtomically(conf, tmid)
+			place(c, dir, conf, tmid, true)
 			syscall.Kill(os.Getpid(), syscall.SIGUSR1)
 			rr.call = time.Now()
-			writeAtomically(conf, t)
+			place(c, dir, conf, t, true)
 			syscall.Kill(os.Getpid(), syscall.SIGUSR1)
 			ni, rerr = inst, fmt.Errorf("HARNESS: the SIGUSR1 reloads neither completed nor failed within 20 s")
 			var firstDone time.Time
@@ -381,7 +382,7 @@ func runCase(c *Case) (nontrivial bool, classes []string, err error) {
 			midRec.ret = time.Now()
 			rls = append(rls, midRec)
 		} else if r.Via == "sigusr1" || r.Via == "sigusr1-pair" {
-			writeAtomically(conf, t)
+			place(c, dir, conf, t, true)
 			off := len(srv.LogBuf.String())
 			rr.call = time.Now()
 			syscall.Kill(os.Getpid(), syscall.SIGUSR1)
@@ -409,7 +410,7 @@ func runCase(c *Case) (nontrivial bool, classes []string, err error) {
 				break
 			}
 		} else {
-			ni, rerr = inst.Restart(casket.CasketfileInput{Contents: []byte(t), Filepath: conf, ServerTypeName: "http"})
+			ni, rerr = inst.Restart(casket.CasketfileInput{Contents: []byte(place(c, dir, conf, t, false)), Filepath: conf, ServerTypeName: "http"})
 		}
 		rr.ret = time.Now()
 		rr.ok = rerr == nil
@@ -525,11 +526,33 @@ func runCase(c *Case) (nontrivial bool, classes []string, err error) {
 	if c.TLS {
 		classes = append(classes, "tls")
 	}
+	if c.Imported {
+		classes = append(classes, "constant-casketfile-with-import")
+	}
 	if len(bad) > 0 {
 		sort.Strings(bad)
 		return true, classes, fmt.Errorf("%d of %d concurrent requests violated the statement; first: %s", len(bad), total, bad[0])
 	}
 	return overlaps > 0, classes, nil
+}
+
+// place puts a generation's configuration where the next load will find it
+// and returns the text of the top-level Casketfile: the configuration itself,
+// or - for cases whose Casketfile never changes - a constant import line, the
+// configuration going into the imported file.
+func place(c *Case, dir, conf, text string, writeMain bool) string {
+	if !c.Imported {
+		if writeMain {
+			writeAtomically(conf, text)
+		}
+		return text
+	}
+	writeAtomically(filepath.Join(dir, "sites.conf"), text)
+	main := "import sites.conf\n"
+	if writeMain {
+		writeAtomically(conf, main)
+	}
+	return main
 }
 
 // writeAtomically replaces the Casketfile in one step, so that a reload that
@@ -584,6 +607,7 @@ func genCase(t *rapid.T) *Case {
 		})
 	}
 	c.TLS = rapid.IntRange(0, 3).Draw(t, "tls") == 0
+	c.Imported = rapid.IntRange(0, 3).Draw(t, "imported") == 0
 	if rapid.IntRange(0, 3).Draw(t, "drain") == 0 {
 		// a short drain timeout and one or two clients whose requests outlast it
 		c.GraceMs = 150
